@@ -945,6 +945,36 @@ class DocGen:
             doc["components"]["examples"] = {"Ex": {"value": {"a": 1}}}
 
 
+def random_config(r: random.Random, doc: dict, rich: bool = True) -> dict:
+    """A random generator configuration (beyond what the checks vary on purpose).  Every option here must be
+    behaviour-neutral for the properties that are judged: it renames, or places identical modules under more tags."""
+    cfg: dict[str, Any] = {}
+    if r.random() < 0.2:
+        cfg["literal_enums"] = True
+    if r.random() < 0.15:
+        cfg["docstrings_on_attributes"] = True
+    if not rich:
+        return cfg
+    if r.random() < 0.2:
+        cfg["generate_all_tags"] = True
+    if r.random() < 0.12:
+        cfg["field_prefix"] = r.choice(["attr_", "f_"])
+    if r.random() < 0.12:
+        cfg["use_path_prefixes_for_title_model_names"] = False
+    schemas = list((doc.get("components") or {}).get("schemas") or {})
+    if schemas and r.random() < 0.12:
+        name = r.choice(schemas)
+        import re as _re
+
+        snake = _re.sub(r"(?<!^)(?=[A-Z])", "_", name).lower()  # overridden names keep the component's prefix (file provenance)
+        cfg["class_overrides"] = {name: r.choice([{"class_name": name + "Renamed"}, {"module_name": snake + "_mod"}, {"class_name": name + "X", "module_name": snake + "_x"}])}
+    if r.random() < 0.1:
+        cfg["package_version_override"] = "9.9.9"
+    if r.random() < 0.1:
+        cfg["http_timeout"] = r.choice([1, 30])
+    return cfg
+
+
 def generate(seed_rng: random.Random, **kw: Any) -> tuple[dict, dict]:
     g = DocGen(seed_rng, **kw)
     doc = g.document()
